@@ -1,6 +1,7 @@
 package main
 
 import (
+	"errors"
 	"bufio"
 	"bytes"
 	"context"
@@ -16,6 +17,7 @@ import (
 
 	"github.com/cloudwego/hertz/pkg/app"
 	"github.com/cloudwego/hertz/pkg/app/server"
+	"github.com/cloudwego/hertz/pkg/app/server/registry"
 	"github.com/cloudwego/hertz/pkg/common/config"
 	"github.com/cloudwego/hertz/pkg/common/hlog"
 	"github.com/cloudwego/hertz/pkg/network"
@@ -58,6 +60,14 @@ func (s *c18srv) gate(id string) chan struct{} {
 	return g.(chan struct{})
 }
 
+// c18FailDeregister: the next server is given a service registry whose Deregister fails at shutdown (set under c18mu)
+var c18FailDeregister bool
+
+type c18registry struct{}
+
+func (c18registry) Register(*registry.Info) error   { return nil }
+func (c18registry) Deregister(*registry.Info) error { return errors.New("registry unreachable") }
+
 // c18start: transport 0 = standard, 1 = netpoll; hooks: list of sleep durations (ms)
 func c18start(transport int, exitWait time.Duration, hooks []int, acceptDelay ...time.Duration) *c18srv {
 	s := &c18srv{addr: c18freeAddr(), runErr: make(chan error, 1)}
@@ -68,6 +78,10 @@ func c18start(transport int, exitWait time.Duration, hooks []int, acceptDelay ..
 	opts := []config.Option{server.WithHostPorts(s.addr), server.WithExitWaitTime(exitWait),
 		server.WithTransport(func(o *config.Options) network.Transporter { return tr(o) }),
 		server.WithIdleTimeout(3 * time.Second), server.WithReadTimeout(3 * time.Second), server.WithDisablePrintRoute(true)}
+	if c18FailDeregister {
+		opts = append(opts, server.WithRegistry(c18registry{}, &registry.Info{ServiceName: "verif", Weight: 1}))
+		c18FailDeregister = false
+	}
 	if len(acceptDelay) > 0 && acceptDelay[0] > 0 {
 		// a slow OnAccept callback: the connection is accepted (the server owns it) but its goroutine has not started
 		d := acceptDelay[0]
@@ -156,6 +170,8 @@ func init() {
 			if len(in) > 5 {
 				acceptDelayIn = time.Duration(in.N(5)) * time.Millisecond
 			}
+			failDereg := len(in) > 6 && in.N(6) == 1 // the registry cannot be reached at shutdown: an error to report, not a reason to skip the rest
+			c18FailDeregister = failDereg
 			s := c18start(transport, exitWait, hooks, acceptDelayIn)
 			var fs []Finding
 			var fmu sync.Mutex
@@ -336,13 +352,20 @@ func init() {
 			if res1 == nil && res2 == nil {
 				bad("second-shutdown-reported-no-error", fmt.Sprintf("mode %d", second))
 			}
+			if failDereg { // neither call returned nil: the hook log is read now (the hooks were started before Deregister)
+				captureLog()
+			}
 			// no new connection is accepted afterwards
 			if c, err := net.DialTimeout("tcp", s.addr, 200*time.Millisecond); err == nil {
 				c.SetDeadline(time.Now().Add(300 * time.Millisecond))
 				fmt.Fprint(c, "GET /w?id=late HTTP/1.1\r\nHost: h\r\n\r\n")
 				s.release("late")
 				if res := c18read(bufio.NewReader(c), "late"); res.complete {
-					bad("connection-accepted-and-served-after-shutdown-returned", "")
+					if failDereg { // known finding D32: a Deregister error ends Shutdown before the transport is shut down
+						bad("deregister-fails:connection-accepted-and-served-after-shutdown-returned", "")
+					} else {
+						bad("connection-accepted-and-served-after-shutdown-returned", "")
+					}
 				}
 				c.Close()
 			}
@@ -401,6 +424,9 @@ func init() {
 			t.Do(In{Nn(13), Nn(1), Nn(400), Nn(0), S("900,1,1")}, true)
 			t.Do(In{Nn(14), Nn(0), Nn(1200), Nn(0), S("500,500,500")}, true)
 			t.Do(In{Nn(15), Nn(1), Nn(1200), Nn(2), S("450,450,450,450")}, true)
+			// directed: the service registry fails to deregister — Shutdown reports it, the hooks have run all the same
+			t.Do(In{Nn(16), Nn(0), Nn(400), Nn(1), S("1,40"), Nn(0), Nn(1)}, true)
+			t.Do(In{Nn(17), Nn(1), Nn(400), Nn(0), S("1"), Nn(0), Nn(1)}, true)
 		}})
 }
 
